@@ -26,6 +26,8 @@ pub enum OwnN {
     SqrtLine,                                  // sum ln sqrt(x) - x: log-density AND gradient are NaN for x < 0
     Cliffs { cell: f64, levels: Vec<f64>, omega2: f64, kappa: f64 },
     BoxU,                                      // uniform on (0,1)^d: 0 inside, -inf outside, gradient 0
+    Norm2,                                     // -|x|: finite everywhere, gradient -x/|x| is NaN at the origin
+    ExpLine,                                   // -sum x on [0, inf)^d, -inf outside: finite ON the boundary
 }
 impl OwnN {
     pub fn logp(&self, x: &[f64]) -> f64 {
@@ -42,6 +44,8 @@ impl OwnN {
             OwnN::HalfLine => x.iter().map(|v| v.ln() - v).sum(),
             OwnN::SqrtLine => x.iter().map(|v| v.sqrt().ln() - v).sum(),
             OwnN::BoxU => if x.iter().all(|v| *v > 0.0 && *v < 1.0) { 0.0 } else { f64::NEG_INFINITY },
+            OwnN::Norm2 => -x.iter().map(|v| v * v).sum::<f64>().sqrt(),
+            OwnN::ExpLine => if x.iter().all(|v| *v >= 0.0) { -x.iter().sum::<f64>() } else { f64::NEG_INFINITY },
             OwnN::Cliffs { cell, levels, omega2, kappa } => cliff_level(x[0], *cell, levels) - 0.5 * kappa * x[0] * x[0] - 0.5 * omega2 * x[1] * x[1],
         }
     }
@@ -61,6 +65,8 @@ impl OwnN {
             OwnN::HalfLine => x.iter().map(|v| 1.0 / v - 1.0).collect(),
             OwnN::SqrtLine => x.iter().map(|v| 0.5 / (v.sqrt() * v.sqrt()) - 1.0).collect(),
             OwnN::BoxU => vec![0.0; x.len()],
+            OwnN::Norm2 => { let r = x.iter().map(|v| v * v).sum::<f64>().sqrt(); x.iter().map(|v| -v / r).collect() }
+            OwnN::ExpLine => vec![-1.0; x.len()],
             OwnN::Cliffs { omega2, kappa, .. } => vec![-kappa * x[0], -omega2 * x[1]],
         }
     }
@@ -145,6 +151,23 @@ impl<T: Float, B: AutodiffBackend> GradientTarget<T, B> for BoxN {
     fn unnorm_logp(&self, x: Tensor<B, 1>) -> Tensor<B, 1> {
         let outside = (x.clone().lower_equal_elem(0.0).int() + x.clone().greater_equal_elem(1.0).int()).sum().greater_elem(0);
         Tensor::<B, 1>::zeros([1], &x.device()).mask_fill(outside, f32::NEG_INFINITY)
+    }
+}
+/// -|x|: a cusp at the origin, where the log-density is finite and its gradient is not.
+#[derive(Clone)]
+pub struct Norm2N;
+impl<T: Float, B: AutodiffBackend> GradientTarget<T, B> for Norm2N {
+    fn unnorm_logp(&self, x: Tensor<B, 1>) -> Tensor<B, 1> {
+        x.powi_scalar(2).sum().sqrt().neg()
+    }
+}
+/// Exponential density on the closed half-space x >= 0: the boundary itself has finite density.
+#[derive(Clone)]
+pub struct ExpLineN;
+impl<T: Float, B: AutodiffBackend> GradientTarget<T, B> for ExpLineN {
+    fn unnorm_logp(&self, x: Tensor<B, 1>) -> Tensor<B, 1> {
+        let outside = x.clone().lower_elem(0.0).int().sum().greater_elem(0);
+        x.sum().neg().mask_fill(outside, f32::NEG_INFINITY)
     }
 }
 /// The box evaluated on the host: the log-density is a tensor built from data (an untracked leaf).
